@@ -1,1 +1,442 @@
-pub fn run(_seed: u64, _n: u64) {}
+//! web3id v0: `Request::prove_with_rng` / `Presentation::verify` over account and web3 credentials,
+//! linking signatures with real ed25519 keys, perturbation stream.
+use crate::*;
+use concordium_base::base::CredentialRegistrationID;
+use concordium_base::contracts_common::ContractAddress;
+use concordium_base::web3id::did::Network;
+use concordium_base::web3id::{
+    Challenge, CommitmentInputs, CredentialHolderId, CredentialProof, CredentialStatement, CredentialsInputs,
+    Presentation, Request, SignedCommitments,
+};
+use ed25519_dalek::{Signer, SigningKey};
+use sha2::Digest;
+
+type W = Web3IdAttribute;
+type Pres = Presentation<ArCurve, W>;
+
+/// A signer that claims one identity and signs with another key / other bytes.
+struct RogueSigner { id: SigningKey, signs_with: SigningKey, flip: bool }
+impl concordium_base::web3id::Web3IdSigner for RogueSigner {
+    fn id(&self) -> ed25519_dalek::VerifyingKey { self.id.verifying_key() }
+    fn sign(&self, msg: &impl AsRef<[u8]>) -> ed25519_dalek::Signature {
+        let mut m = msg.as_ref().to_vec();
+        if self.flip { let n = m.len(); m[n - 1] ^= 1; }
+        Signer::sign(&self.signs_with, &m)
+    }
+}
+
+enum Cred {
+    Account {
+        al: Vec<(u8, A)>, ss: Vec<St>, cred_id: CredentialRegistrationID, issuer: IpIdentity, network: Network,
+        values: BTreeMap<AttributeTag, W>, rand: BTreeMap<AttributeTag, PedersenRandomness<ArCurve>>,
+        coms: BTreeMap<AttributeTag, Commitment<ArCurve>>,
+    },
+    Web3 {
+        al: Vec<(u8, A)>, ss: Vec<St>, signer: SigningKey, issuer_key: SigningKey, contract: ContractAddress, network: Network,
+        ty: BTreeSet<String>, values: BTreeMap<String, W>, rand: BTreeMap<String, PedersenRandomness<ArCurve>>,
+        signature: ed25519_dalek::Signature,
+    },
+}
+
+fn gen_cred(r: &mut Rng, csprng: &mut StdRng, global: &GlobalContext<ArCurve>, web3cred: bool, all_true: bool) -> Cred {
+    let al = crate::gen_alist_pub(r, true);
+    let mut ss = crate::gen_stmts_pub(r, &al, true);
+    if all_true {
+        // keep only statements that are true and provable (decided on the implementation's scalars)
+        ss.retain(|s| crate::impl_truth_supported(&al, s));
+        if ss.is_empty() { ss.push(St::Reveal(al[0].0)); }
+    }
+    let network = if r.chance(1, 2) { Network::Testnet } else { Network::Mainnet };
+    if web3cred {
+        let signer = SigningKey::generate(csprng);
+        let issuer_key = SigningKey::generate(csprng);
+        let contract = ContractAddress::new(r.below(5000), r.below(3));
+        let mut values = BTreeMap::new();
+        let mut rand = BTreeMap::new();
+        for (t, a) in al.iter() {
+            values.insert(t.to_string(), W::mk(a).unwrap());
+            rand.insert(t.to_string(), PedersenRandomness::<ArCurve>::generate(csprng));
+        }
+        let holder = CredentialHolderId::new(signer.verifying_key());
+        let signed = SignedCommitments::from_secrets(global, &values, &rand, &holder, &issuer_key, contract).unwrap();
+        let ty: BTreeSet<String> = ["VerifiableCredential".to_string(), "ConcordiumVerifiableCredential".to_string(), format!("Ty{}", r.below(4))].into_iter().collect();
+        Cred::Web3 { al, ss, signer, issuer_key, contract, network, ty, values, rand, signature: signed.signature }
+    } else {
+        let w: World<W> = build_world(global, &al, csprng);
+        let cred_id = CredentialRegistrationID::from_exponent(global, ArCurve::generate_scalar(csprng));
+        Cred::Account { al, ss, cred_id, issuer: IpIdentity(r.below(20) as u32), network, values: w.values, rand: w.rand, coms: w.coms }
+    }
+}
+
+fn statement_of(c: &Cred) -> CredentialStatement<ArCurve, W> {
+    match c {
+        Cred::Account { ss, cred_id, network, .. } => CredentialStatement::Account {
+            network: *network, cred_id: *cred_id,
+            statement: ss.iter().map(|s| mk_stmt::<W, _>(s, AttributeTag(s.tag()))).collect(),
+        },
+        Cred::Web3 { ss, signer, contract, network, ty, .. } => CredentialStatement::Web3Id {
+            ty: ty.clone(), network: *network, contract: *contract, credential: CredentialHolderId::new(signer.verifying_key()),
+            statement: ss.iter().map(|s| mk_stmt::<W, _>(s, s.tag().to_string())).collect(),
+        },
+    }
+}
+
+fn public_of(c: &Cred) -> CredentialsInputs<ArCurve> {
+    match c {
+        Cred::Account { coms, .. } => CredentialsInputs::Account { commitments: coms.clone() },
+        Cred::Web3 { issuer_key, .. } => CredentialsInputs::Web3 { issuer_pk: issuer_key.verifying_key().into() },
+    }
+}
+
+fn verify(p: &Pres, global: &GlobalContext<ArCurve>, public: &[CredentialsInputs<ArCurve>]) -> Result<Option<Request<ArCurve, W>>, String> {
+    guarded(|| p.verify(global, public.iter()).ok())
+}
+fn vb(p: &Pres, global: &GlobalContext<ArCurve>, public: &[CredentialsInputs<ArCurve>]) -> J {
+    match verify(p, global, public) { Ok(x) => json!(x.is_some()), Err(_) => json!("PANIC") }
+}
+
+fn linking_message(challenge: &Challenge, proofs: &Vec<CredentialProof<ArCurve, W>>) -> Vec<u8> {
+    let mut h = sha2::Sha512::new();
+    h.update(to_bytes(challenge));
+    h.update(to_bytes(proofs));
+    let mut msg = b"WEB3ID:LINKING".to_vec();
+    msg.extend_from_slice(&h.finalize());
+    msg
+}
+
+/// Rebuild a presentation with the given body and linking signatures (through the public JSON form,
+/// the signature list itself is private).
+fn with_signatures(ctx: Challenge, creds: Vec<CredentialProof<ArCurve, W>>, created: chrono::DateTime<chrono::Utc>, sigs: &[ed25519_dalek::Signature]) -> Option<Pres> {
+    // (serialising a Timestamp attribute outside chrono's range panics inside the crate: JSON forms are C05/C17 matters)
+    let v = guarded(|| json!({"type":"VerifiablePresentation","presentationContext":ctx,"verifiableCredential":creds,
+        "proof":{"type":"ConcordiumWeakLinkingProofV1","created":created,"proofValue":sigs.iter().map(|s| hex(&s.to_bytes())).collect::<Vec<_>>()}})).ok()?;
+    Pres::try_from(v).ok()
+}
+fn resign(ctx: Challenge, creds: Vec<CredentialProof<ArCurve, W>>, created: chrono::DateTime<chrono::Utc>, signers: &[&SigningKey]) -> Option<Pres> {
+    let msg = linking_message(&ctx, &creds);
+    let sigs: Vec<_> = signers.iter().map(|k| k.sign(&msg)).collect();
+    with_signatures(ctx, creds, created, &sigs)
+}
+fn rebuild(p: &Pres, creds: Vec<CredentialProof<ArCurve, W>>) -> Pres {
+    Presentation { presentation_context: p.presentation_context, verifiable_credential: creds, linking_proof: p.linking_proof.clone() }
+}
+
+fn alter_stmt(r: &mut Rng, s: &St, v: &A, al: &[(u8, A)]) -> Option<St> {
+    match s {
+        St::Range(t, lo, hi) => succ_attr_pub(hi, 1).map(|h2| St::Range(*t, lo.clone(), h2)).or_else(|| pred_attr_pub(lo, 1).map(|l2| St::Range(*t, l2, hi.clone()))),
+        St::In(t, set) | St::NotIn(t, set) => {
+            let mut extra = A::N(r.next());
+            let mut g = 0;
+            while (set.contains(&extra) || &extra == v) && g < 100 { extra = A::N(r.next()); g += 1; }
+            let mut s2 = set.clone(); s2.push(extra);
+            Some(if matches!(s, St::In(..)) { St::In(*t, s2) } else { St::NotIn(*t, s2) })
+        }
+        St::Reveal(t) => al.iter().find(|(t2, a)| t2 != t && a != v).map(|(t2, _)| St::Reveal(*t2)),
+    }
+}
+
+pub fn run(seed: u64, n: u64) {
+    let mut r = Rng::new(seed ^ 0x7630);
+    let mut csprng = StdRng::seed_from_u64(seed ^ 0x7630);
+    let global = GlobalContext::<ArCurve>::generate(String::from("verif-c18"));
+    let global2 = GlobalContext::<ArCurve>::generate(String::from("verif-c18-other"));
+    let now = chrono::DateTime::parse_from_rfc3339("2024-02-29T12:00:00Z").unwrap().to_utc();
+    let mut ties = 0;
+    for i in 0..n {
+        let ncred = match i % 5 { 0 => 1, 1 => 1, 2 => 2, 3 => 2, _ => 3 } as usize;
+        let all_true = i % 3 != 2;
+        let mut creds: Vec<Cred> = (0..ncred).map(|j| {
+            let web3cred = match i % 5 { 0 => false, 1 => true, _ => (i as usize + j) % 2 == 0 };
+            gen_cred(&mut r, &mut csprng, &global, web3cred, all_true)
+        }).collect();
+        // transcript tie: an account credential whose first statement is a reveal, first in the request
+        let want_tie = ties < 3 && matches!(creds[0], Cred::Account { .. });
+        if want_tie { if let Cred::Account { ss, al, .. } = &mut creds[0] { ss.insert(0, St::Reveal(al[0].0)); ties += 1; } }
+        let challenge = Challenge::new({ let b = r.bytes(32); let mut a = [0u8; 32]; a.copy_from_slice(&b); a });
+        let request = Request { challenge, credential_statements: creds.iter().map(statement_of).collect() };
+        let public: Vec<CredentialsInputs<ArCurve>> = creds.iter().map(public_of).collect();
+        let inputs = || creds.iter().map(|c| match c {
+            Cred::Account { values, rand, issuer, .. } => CommitmentInputs::Account::<ArCurve, W, SigningKey> { issuer: *issuer, values, randomness: rand },
+            Cred::Web3 { values, rand, signer, signature, .. } => CommitmentInputs::Web3Issuer { signature: *signature, signer, values, randomness: rand },
+        }).collect::<Vec<_>>();
+        let cj: Vec<J> = creds.iter().map(|c| {
+            let (kind, al, ss) = match c { Cred::Account { al, ss, .. } => ("account", al, ss), Cred::Web3 { al, ss, .. } => ("web3", al, ss) };
+            json!({"kind": kind, "ty": "web3",
+                "al": al.iter().map(|(t, a)| json!([t, a_json(a), fe_hex(&W::mk(a).unwrap())])).collect::<Vec<_>>(),
+                "ss": ss.iter().map(|s| stmt_json::<W>(s)).collect::<Vec<_>>()})
+        }).collect();
+        let mut out = json!({"k":"pres","flow":"v0","creds":cj,"i":i});
+        let pres = guarded(|| request.clone().prove_with_rng(&global, inputs().into_iter(), &mut StdRng::seed_from_u64(seed + i), now));
+        let pres = match pres {
+            Err(_) => { out["prove"] = json!("PANIC"); println!("{}", out); continue; }
+            Ok(Err(e)) => { out["prove"] = json!("Err"); out["err"] = json!(format!("{}", e)); println!("{}", out); continue; }
+            Ok(Ok(p)) => p,
+        };
+        out["prove"] = json!("Some");
+        let res = verify(&pres, &global, &public);
+        match &res {
+            Err(_) => { out["verify"] = json!("PANIC"); }
+            Ok(None) => { out["verify"] = json!(false); }
+            Ok(Some(req)) => { out["verify"] = json!(true); out["same_request"] = json!(*req == request); }
+        }
+        if let Ok(Some(_)) = res {
+            // revealed values = committed values
+            let mut revealed_ok = true;
+            for (c, cp) in creds.iter().zip(pres.verifiable_credential.iter()) {
+                match (c, cp) {
+                    (Cred::Account { al, ss, .. }, CredentialProof::Account { proofs, .. }) => {
+                        for (s, (_, p)) in ss.iter().zip(proofs.iter()) {
+                            if let (St::Reveal(t), AtomicProof::RevealAttribute { attribute, .. }) = (s, p) {
+                                revealed_ok &= al.iter().any(|(t2, a)| t2 == t && *a == attribute.back());
+                            } else if matches!(s, St::Reveal(_)) { revealed_ok = false; }
+                        }
+                    }
+                    (Cred::Web3 { al, ss, .. }, CredentialProof::Web3Id { proofs, .. }) => {
+                        for (s, (_, p)) in ss.iter().zip(proofs.iter()) {
+                            if let (St::Reveal(t), AtomicProof::RevealAttribute { attribute, .. }) = (s, p) {
+                                revealed_ok &= al.iter().any(|(t2, a)| t2 == t && *a == attribute.back());
+                            } else if matches!(s, St::Reveal(_)) { revealed_ok = false; }
+                        }
+                    }
+                    _ => revealed_ok = false,
+                }
+            }
+            out["revealed_ok"] = json!(revealed_ok);
+            // JSON round trip
+            let rt = guarded(|| serde_json::to_value(&pres).map_err(|e| format!("{}", e)).and_then(|v| Pres::try_from(v).map_err(|e| format!("{:#}", e))));
+            out["json_roundtrip"] = match rt { Ok(Ok(p2)) => vb(&p2, &global, &public), Ok(Err(e)) => json!(format!("PARSE-ERR {}", e)), Err(_) => json!("SERIALIZE-PANIC") };
+
+            let mut pert: Vec<J> = Vec::new();
+            let mut accept: Vec<J> = Vec::new();
+            let body = pres.verifiable_credential.clone();
+            let signers: Vec<&SigningKey> = creds.iter().filter_map(|c| if let Cred::Web3 { signer, .. } = c { Some(signer) } else { None }).collect();
+            let created = pres.linking_proof.created;
+            // control: re-signing the unchanged body verifies (so the re-signed perturbations are meaningful)
+            match resign(challenge, body.clone(), created, &signers) {
+                Some(p2) => accept.push(json!(["resigned_unchanged", vb(&p2, &global, &public)])),
+                None => accept.push(json!(["resigned_unchanged", "UNSERIALISABLE"])),
+            }
+            // --- challenge / context
+            let mut cb = [0u8; 32]; cb.copy_from_slice(challenge.as_ref()); cb[r.below(32) as usize] ^= 1 << r.below(8);
+            let p2 = Presentation { presentation_context: Challenge::new(cb), verifiable_credential: body.clone(), linking_proof: pres.linking_proof.clone() };
+            pert.push(json!(["challenge_bitflip", vb(&p2, &global, &public)]));
+            if let Some(p3) = resign(Challenge::new(cb), body.clone(), created, &signers) {
+                // the holder re-signs for the other challenge: the ZK proofs must still fail (unless nothing is proven)
+                let nstm: usize = creds.iter().map(|c| match c { Cred::Account { ss, .. } | Cred::Web3 { ss, .. } => ss.len() }).sum();
+                if nstm > 0 { pert.push(json!(["challenge_bitflip_resigned", vb(&p3, &global, &public)])); }
+            }
+            {
+                let nstm: usize = creds.iter().map(|c| match c { Cred::Account { ss, .. } | Cred::Web3 { ss, .. } => ss.len() }).sum();
+                if nstm > 0 { pert.push(json!(["global_genesis_string", vb(&pres, &global2, &public)])); }
+            }
+            // --- public data
+            if public.len() > 1 {
+                pert.push(json!(["public_data_dropped", vb(&pres, &global, &public[..public.len() - 1])]));
+                let differs = match (&creds[0], &creds[1]) { (Cred::Account { .. }, Cred::Account { coms: c2, .. }) => { if let Cred::Account { coms: c1, .. } = &creds[0] { c1 != c2 } else { true } }, _ => true };
+                if differs {
+                    let mut sw: Vec<CredentialsInputs<ArCurve>> = creds.iter().map(public_of).collect(); sw.swap(0, 1);
+                    let has_stmt = creds.iter().take(2).any(|c| match c { Cred::Account { ss, .. } => !ss.is_empty(), Cred::Web3 { .. } => true });
+                    if has_stmt { pert.push(json!(["public_data_swapped", vb(&pres, &global, &sw)])); }
+                }
+            }
+            for (j, c) in creds.iter().enumerate() {
+                match (c, &body[j]) {
+                    (Cred::Account { al, ss, coms, .. }, CredentialProof::Account { created: cr, network, cred_id, issuer, proofs }) => {
+                        // metadata of an account credential proof (commitments unchanged)
+                        let mk = |cr, network, cred_id, issuer| { let mut b = body.clone(); b[j] = CredentialProof::Account { created: cr, network, cred_id, issuer, proofs: proofs.clone() }; b };
+                        let on = if *network == Network::Testnet { Network::Mainnet } else { Network::Testnet };
+                        let b1 = mk(*cr, *network, *cred_id, IpIdentity(issuer.0 + 1));
+                        let b2 = mk(*cr + chrono::Duration::seconds(1), *network, *cred_id, *issuer);
+                        let b3 = mk(*cr, on, *cred_id, *issuer);
+                        let b4 = mk(*cr, *network, CredentialRegistrationID::from_exponent(&global, ArCurve::generate_scalar(&mut csprng)), *issuer);
+                        for (name, b) in [("account_meta_issuer", b1), ("account_meta_created", b2), ("account_meta_network", b3), ("account_meta_cred_id", b4)] {
+                            // with web3 credentials present the linking signature covers the whole body; test both plain and re-signed
+                            if signers.is_empty() { pert.push(json!([format!("{}#{}", name, j), vb(&rebuild(&pres, b), &global, &public)])); }
+                            else {
+                                pert.push(json!([format!("linked_{}#{}", name, j), vb(&rebuild(&pres, b.clone()), &global, &public)]));
+                                if let Some(p) = resign(challenge, b, created, &signers) { pert.push(json!([format!("{}_resigned#{}", name, j), vb(&p, &global, &public)])); }
+                            }
+                        }
+                        // public commitments
+                        if !ss.is_empty() {
+                            let t = AttributeTag(ss[0].tag());
+                            let v = W::mk(&al.iter().find(|(t2, _)| *t2 == t.0).unwrap().1).unwrap();
+                            let (cnew, _) = global.on_chain_commitment_key.commit(&Value::<ArCurve>::new(v.to_field_element()), &mut csprng);
+                            let mut cm = coms.clone(); cm.insert(t, cnew);
+                            let mut pb: Vec<CredentialsInputs<ArCurve>> = creds.iter().map(public_of).collect();
+                            pb[j] = CredentialsInputs::Account { commitments: cm };
+                            pert.push(json!([format!("account_commitment_rerandomised#{}", j), vb(&pres, &global, &pb)]));
+                            let mut cm = coms.clone(); cm.remove(&t);
+                            pb[j] = CredentialsInputs::Account { commitments: cm };
+                            pert.push(json!([format!("account_commitment_missing#{}", j), vb(&pres, &global, &pb)]));
+                            pb[j] = CredentialsInputs::Web3 { issuer_pk: SigningKey::generate(&mut csprng).verifying_key().into() };
+                            pert.push(json!([format!("account_public_wrong_type#{}", j), vb(&pres, &global, &pb)]));
+                        }
+                        // statements / revealed values (re-signed when there are holders: the attacker may be a holder)
+                        for (k, s) in ss.iter().enumerate() {
+                            let v = al.iter().find(|(t, _)| *t == s.tag()).map(|(_, a)| a.clone()).unwrap();
+                            if let Some(s2) = alter_stmt(&mut r, s, &v, al) {
+                                if format!("{}", stmt_json::<W>(&s2)) == format!("{}", stmt_json::<W>(s)) { continue; }
+                                let mut pr = proofs.clone(); pr[k].0 = mk_stmt::<W, _>(&s2, AttributeTag(s2.tag()));
+                                let mut b = body.clone(); b[j] = CredentialProof::Account { created: *cr, network: *network, cred_id: *cred_id, issuer: *issuer, proofs: pr };
+                                if let Some(p) = resign(challenge, b, created, &signers) { pert.push(json!([format!("account_statement_altered#{}", j), vb(&p, &global, &public)])); }
+                            }
+                            if let AtomicProof::RevealAttribute { attribute, proof: dl } = &proofs[k].1 {
+                                let mut other = A::N(r.next());
+                                let mut g = 0;
+                                while W::mk(&other).unwrap().to_field_element() == attribute.to_field_element() && g < 100 { other = A::N(r.next()); g += 1; }
+                                let mut pr = proofs.clone(); pr[k].1 = AtomicProof::RevealAttribute { attribute: W::mk(&other).unwrap(), proof: dl.clone() };
+                                let mut b = body.clone(); b[j] = CredentialProof::Account { created: *cr, network: *network, cred_id: *cred_id, issuer: *issuer, proofs: pr };
+                                if let Some(p) = resign(challenge, b, created, &signers) { pert.push(json!([format!("account_revealed_value#{}", j), vb(&p, &global, &public)])); }
+                            }
+                        }
+                    }
+                    (Cred::Web3 { al, ss, signer, .. }, CredentialProof::Web3Id { created: cr, holder, network, contract, ty, commitments, proofs }) => {
+                        let mk = |cr, holder, network, contract, ty: BTreeSet<String>, commitments: SignedCommitments<ArCurve>, proofs| {
+                            let mut b = body.clone(); b[j] = CredentialProof::Web3Id { created: cr, holder, network, contract, ty, commitments, proofs }; b };
+                        let on = if *network == Network::Testnet { Network::Mainnet } else { Network::Testnet };
+                        let other_key = SigningKey::generate(&mut csprng);
+                        let mut ty2 = ty.clone(); ty2.insert("Extra".into());
+                        // without re-signing: every field of the body is covered by the linking signature
+                        let plain = vec![
+                            ("web3_meta_created", mk(*cr + chrono::Duration::milliseconds(1), *holder, *network, *contract, ty.clone(), commitments.clone(), proofs.clone())),
+                            ("web3_meta_network", mk(*cr, *holder, on, *contract, ty.clone(), commitments.clone(), proofs.clone())),
+                            ("web3_meta_contract", mk(*cr, *holder, *network, ContractAddress::new(contract.index + 1, contract.subindex), ty.clone(), commitments.clone(), proofs.clone())),
+                            ("web3_meta_type", mk(*cr, *holder, *network, *contract, ty2, commitments.clone(), proofs.clone())),
+                            ("web3_meta_holder", mk(*cr, CredentialHolderId::new(other_key.verifying_key()), *network, *contract, ty.clone(), commitments.clone(), proofs.clone())),
+                        ];
+                        for (name, b) in plain { pert.push(json!([format!("{}#{}", name, j), vb(&rebuild(&pres, b), &global, &public)])); }
+                        // re-signed by the (possibly malicious) holder: issuer signature / ZK proofs must still protect
+                        fn sig_for_impl<'x>(creds: &'x [Cred], j: usize, replace: Option<&'x SigningKey>) -> Vec<&'x SigningKey> {
+                            let mut v = Vec::new();
+                            for (jj, c2) in creds.iter().enumerate() { if let Cred::Web3 { signer: s2, .. } = c2 { v.push(if jj == j { replace.unwrap_or(s2) } else { s2 }); } }
+                            v
+                        }
+                        let sig_for = |replace| sig_for_impl(&creds, j, replace);
+                        let b = mk(*cr, *holder, *network, ContractAddress::new(contract.index + 1, contract.subindex), ty.clone(), commitments.clone(), proofs.clone());
+                        if let Some(p) = resign(challenge, b, created, &sig_for(None)) { pert.push(json!([format!("web3_contract_resigned#{}", j), vb(&p, &global, &public)])); }
+                        let b = mk(*cr, CredentialHolderId::new(other_key.verifying_key()), *network, *contract, ty.clone(), commitments.clone(), proofs.clone());
+                        if let Some(p) = resign(challenge, b, created, &sig_for(Some(&other_key))) { pert.push(json!([format!("web3_holder_replaced_resigned#{}", j), vb(&p, &global, &public)])); }
+                        // commitments: alter one commitment (issuer signature must fail), re-signed by the holder
+                        if let Some((k0, c0)) = commitments.commitments.iter().next() {
+                            let mut cm = commitments.clone();
+                            cm.commitments.insert(k0.clone(), Commitment(c0.0.plus_point(&global.on_chain_commitment_key.g)));
+                            let b = mk(*cr, *holder, *network, *contract, ty.clone(), cm, proofs.clone());
+                            if let Some(p) = resign(challenge, b, created, &sig_for(None)) { pert.push(json!([format!("web3_commitment_altered_resigned#{}", j), vb(&p, &global, &public)])); }
+                            if commitments.commitments.len() >= 2 {
+                                let ks: Vec<String> = commitments.commitments.keys().cloned().collect();
+                                let (ca, cb2) = (commitments.commitments[&ks[0]], commitments.commitments[&ks[1]]);
+                                if ca != cb2 {
+                                    let mut cm = commitments.clone(); cm.commitments.insert(ks[0].clone(), cb2); cm.commitments.insert(ks[1].clone(), ca);
+                                    let b = mk(*cr, *holder, *network, *contract, ty.clone(), cm, proofs.clone());
+                                    if let Some(p) = resign(challenge, b, created, &sig_for(None)) { pert.push(json!([format!("web3_commitments_swapped_resigned#{}", j), vb(&p, &global, &public)])); }
+                                }
+                            }
+                            let mut cm = commitments.clone(); let mut sb = cm.signature.to_bytes(); sb[5] ^= 4; cm.signature = ed25519_dalek::Signature::from_bytes(&sb);
+                            let b = mk(*cr, *holder, *network, *contract, ty.clone(), cm, proofs.clone());
+                            if let Some(p) = resign(challenge, b, created, &sig_for(None)) { pert.push(json!([format!("web3_issuer_signature_altered_resigned#{}", j), vb(&p, &global, &public)])); }
+                        }
+                        // issuer public key
+                        let mut pb: Vec<CredentialsInputs<ArCurve>> = creds.iter().map(public_of).collect();
+                        pb[j] = CredentialsInputs::Web3 { issuer_pk: other_key.verifying_key().into() };
+                        pert.push(json!([format!("web3_issuer_key#{}", j), vb(&pres, &global, &pb)]));
+                        pb[j] = CredentialsInputs::Account { commitments: BTreeMap::new() };
+                        pert.push(json!([format!("web3_public_wrong_type#{}", j), vb(&pres, &global, &pb)]));
+                        // statements / revealed values, re-signed
+                        for (k, s) in ss.iter().enumerate() {
+                            let v = al.iter().find(|(t, _)| *t == s.tag()).map(|(_, a)| a.clone()).unwrap();
+                            if let Some(s2) = alter_stmt(&mut r, s, &v, al) {
+                                if format!("{}", stmt_json::<W>(&s2)) == format!("{}", stmt_json::<W>(s)) { continue; }
+                                let mut pr = proofs.clone(); pr[k].0 = mk_stmt::<W, _>(&s2, s2.tag().to_string());
+                                let b = mk(*cr, *holder, *network, *contract, ty.clone(), commitments.clone(), pr.clone());
+                                pert.push(json!([format!("web3_statement_altered#{}", j), vb(&rebuild(&pres, b.clone()), &global, &public)]));
+                                if let Some(p) = resign(challenge, b, created, &sig_for(None)) { pert.push(json!([format!("web3_statement_altered_resigned#{}", j), vb(&p, &global, &public)])); }
+                            }
+                            if let AtomicProof::RevealAttribute { attribute, proof: dl } = &proofs[k].1 {
+                                let mut other = A::N(r.next());
+                                let mut g = 0;
+                                while W::mk(&other).unwrap().to_field_element() == attribute.to_field_element() && g < 100 { other = A::N(r.next()); g += 1; }
+                                let mut pr = proofs.clone(); pr[k].1 = AtomicProof::RevealAttribute { attribute: W::mk(&other).unwrap(), proof: dl.clone() };
+                                let b = mk(*cr, *holder, *network, *contract, ty.clone(), commitments.clone(), pr);
+                                if let Some(p) = resign(challenge, b, created, &sig_for(None)) { pert.push(json!([format!("web3_revealed_value_resigned#{}", j), vb(&p, &global, &public)])); }
+                            }
+                        }
+                        let _ = signer;
+                    }
+                    _ => {}
+                }
+            }
+            // --- linking proof shape and keys
+            if !signers.is_empty() {
+                let msg = linking_message(&challenge, &body);
+                let good: Vec<_> = signers.iter().map(|k| k.sign(&msg)).collect();
+                if let Some(p) = with_signatures(challenge, body.clone(), created, &good[..good.len() - 1]) { pert.push(json!(["linking_signature_missing", vb(&p, &global, &public)])); }
+                let mut extra = good.clone(); extra.push(good[0]);
+                if let Some(p) = with_signatures(challenge, body.clone(), created, &extra) { pert.push(json!(["linking_signature_excess", vb(&p, &global, &public)])); }
+                let mut bad = good.clone(); let mut sb = bad[0].to_bytes(); sb[40] ^= 1; bad[0] = ed25519_dalek::Signature::from_bytes(&sb);
+                if let Some(p) = with_signatures(challenge, body.clone(), created, &bad) { pert.push(json!(["linking_signature_bitflip", vb(&p, &global, &public)])); }
+                let wrong_key = SigningKey::generate(&mut csprng);
+                let mut wk = good.clone(); wk[0] = wrong_key.sign(&msg);
+                if let Some(p) = with_signatures(challenge, body.clone(), created, &wk) { pert.push(json!(["linking_signature_wrong_key", vb(&p, &global, &public)])); }
+                // signature over other bytes: the body without the domain string, the body of another challenge
+                let mut other_msg = msg.clone(); other_msg[20] ^= 1;
+                let mut wm = good.clone(); wm[0] = signers[0].sign(&other_msg);
+                if let Some(p) = with_signatures(challenge, body.clone(), created, &wm) { pert.push(json!(["linking_signature_other_message", vb(&p, &global, &public)])); }
+                let mut wm = good.clone(); wm[0] = signers[0].sign(&msg[14..].to_vec());
+                if let Some(p) = with_signatures(challenge, body.clone(), created, &wm) { pert.push(json!(["linking_signature_without_domain", vb(&p, &global, &public)])); }
+                if good.len() >= 2 && good[0] != good[1] {
+                    let mut sw = good.clone(); sw.swap(0, 1);
+                    if let Some(p) = with_signatures(challenge, body.clone(), created, &sw) { pert.push(json!(["linking_signatures_swapped", vb(&p, &global, &public)])); }
+                }
+            }
+            out["pert"] = json!(pert);
+            out["must_accept"] = json!(accept);
+            // --- transcript tie
+            if want_tie {
+                if let (Cred::Account { al, coms, .. }, CredentialProof::Account { proofs, .. }) = (&creds[0], &body[0]) {
+                    if let Some((_, AtomicProof::RevealAttribute { attribute, proof: dl })) = proofs.first() {
+                        let com = coms.get(&AttributeTag(al[0].0)).unwrap();
+                        let x = attribute.to_field_element();
+                        let mut mx = x; mx.negate();
+                        let public_pt = com.0.plus_point(&global.on_chain_commitment_key.g.mul_by_scalar(&mx));
+                        let d = Dlog::<ArCurve> { public: public_pt, coeff: global.on_chain_commitment_key.h };
+                        let ch = d.get_challenge(&dl.challenge);
+                        if let Some(point) = d.extract_commit_message(&ch, &dl.response) {
+                            out["tie"] = json!({"flow":"web3v0","challenge":hex(challenge.as_ref()),"global":hex(&to_bytes(&global)),
+                                "x":hex(&to_bytes(&x)),"keys":hex(&to_bytes(&global.on_chain_commitment_key)),"C":hex(&to_bytes(com)),
+                                "public":hex(&to_bytes(&public_pt)),"coeff":hex(&to_bytes(&global.on_chain_commitment_key.h)),"point":hex(&to_bytes(&point)),
+                                "fs":hex(dl.challenge.as_ref())});
+                        }
+                    }
+                }
+            }
+        }
+        println!("{}", out);
+    }
+    // rogue signers: the honest prover API with a signer that signs with another key / other bytes
+    for (name, flip, other) in [("rogue_signer_other_key", false, true), ("rogue_signer_other_bytes", true, false)] {
+        let al = vec![(1u8, A::N(42))];
+        let ss = vec![St::Reveal(1)];
+        let id = SigningKey::generate(&mut csprng);
+        let issuer_key = SigningKey::generate(&mut csprng);
+        let contract = ContractAddress::new(7, 0);
+        let mut values = BTreeMap::new(); let mut rand = BTreeMap::new();
+        values.insert("1".to_string(), W::Numeric(42)); rand.insert("1".to_string(), PedersenRandomness::<ArCurve>::generate(&mut csprng));
+        let holder = CredentialHolderId::new(id.verifying_key());
+        let signed = SignedCommitments::from_secrets(&global, &values, &rand, &holder, &issuer_key, contract).unwrap();
+        let rogue = RogueSigner { id: id.clone(), signs_with: if other { SigningKey::generate(&mut csprng) } else { id.clone() }, flip };
+        let challenge = Challenge::new([7u8; 32]);
+        let request = Request::<ArCurve, W> { challenge, credential_statements: vec![CredentialStatement::Web3Id {
+            ty: BTreeSet::new(), network: Network::Testnet, contract, credential: holder, statement: ss.iter().map(|s| mk_stmt::<W, _>(s, s.tag().to_string())).collect() }] };
+        let public = vec![CredentialsInputs::Web3 { issuer_pk: issuer_key.verifying_key().into() }];
+        let honest_inputs = vec![CommitmentInputs::Web3Issuer { signature: signed.signature, signer: &id, values: &values, randomness: &rand }];
+        let honest = guarded(|| request.clone().prove_with_rng(&global, honest_inputs.into_iter(), &mut StdRng::seed_from_u64(seed), now));
+        let (hp, hv) = match honest { Ok(Ok(p)) => (json!("Some"), vb(&p, &global, &public)), Ok(Err(_)) => (json!("Err"), J::Null), Err(_) => (json!("PANIC"), J::Null) };
+        let inputs = vec![CommitmentInputs::Web3Issuer { signature: signed.signature, signer: &rogue, values: &values, randomness: &rand }];
+        let pres = guarded(|| request.prove_with_rng(&global, inputs.into_iter(), &mut StdRng::seed_from_u64(seed), now));
+        let res = match pres { Ok(Ok(p)) => vb(&p, &global, &public), Ok(Err(_)) => json!(false), Err(_) => json!("PANIC") };
+        let cj = json!([{"kind":"web3","ty":"web3","al":[[1, a_json(&al[0].1), fe_hex(&W::Numeric(42))]],"ss":[stmt_json::<W>(&ss[0])]}]);
+        // reported as a perturbation of an (implicit) verifying presentation
+        println!("{}", json!({"k":"pres","flow":"v0","variant":name,"creds":cj,"prove":hp,"verify":hv,"pert":[[name, res]]}));
+    }
+}
